@@ -446,7 +446,7 @@ class Buildable(Generic[T], metaclass=abc.ABCMeta):
     ]
     new_placeholders = old_placeholders.copy()
     # Traverse from largest index to maintain order of undeleted indices.
-    for index in indices[::-1]:
+    for index in sorted(indices, reverse=True):
       if index < var_positional_start:
         k = self.__signature_info__.index_to_key(index, self.__arguments__)
         if k in self.__arguments__:
